@@ -141,6 +141,9 @@ Inductive label :=
 | ReadDone (t : tid) (r : rres)   (* body parsed; a non-Kafka error closes the connection *)
 | BatchOpen (t : tid)             (* ReadBatchWith returns the Batch holding rlock *)
 | BatchClose (t : tid) (r : rres) (* Batch.close: discard the rest, close on non-Kafka error, unlock *)
+| BatchRead (t : tid)             (* Batch.Read / ReadMessage of one message: the Batch keeps the lock *)
+| BatchShort (t : tid)            (* Batch.Read with a short buffer: io.ErrShortBuffer, the Batch keeps the lock *)
+| BatchCloseAgain (t : tid)       (* Batch.Close on a closed Batch: batch.conn and batch.lock are nil, nothing happens *)
 | Deadline (t : tid)              (* the call's deadline fires where it is blocked on the socket *)
 | UserClose                       (* Conn.Close by the program *)
 | Lost.                           (* closed: unread frames in the socket are gone *)
@@ -264,6 +267,16 @@ Definition step (s : state) (l : label) : option state :=
     | InBatch => Some (finish_read s t r)
     | _ => None
     end
+  | BatchRead t | BatchShort t =>
+    match ph (thr s t) with
+    | InBatch => Some s
+    | _ => None
+    end
+  | BatchCloseAgain t =>
+    match ph (thr s t), knd (thr s t) with
+    | Done _, KBatch | Failed _, KBatch => Some s
+    | _, _ => None
+    end
   | Deadline t =>
     match ph (thr s t) with
     | Peeking => Some (peek_fail s t)
@@ -322,3 +335,22 @@ Fixpoint all_own (s : state) (ts : list tid) {struct ts} : bool :=
 Definition is_err_class (c : nat) : bool := Nat.eqb c 3 || Nat.eqb c 4.
 Definition mon_conn_cut (res : list nat) (post_class post_new : nat) : bool :=
   forallb is_err_class res && is_err_class post_class && Nat.eqb post_new 0.
+
+(* ---- monitor of harness op batchrd (reads on a Batch over real message sets whose values are
+   forged response frames; other calls wait or follow).  close_class: 0 nil, 1 io.ErrShortBuffer,
+   2 another error, 3 Close did not return; unread: bytes of the connection the client had not
+   consumed when Close returned (socket + read buffer) while every other answer was still held
+   back; closed: the client had closed the connection; res: classes of the other calls and of
+   the follower (1 own answer, 2-4 errors, 5 still running, 6 a value that is not its answer).
+     mon_batch_own    no call returned a foreign value
+     mon_batch_acct   a Close that leaves the connection open leaves it at the frame boundary
+                      (C06_batch_close_at_boundary_or_closed)
+     mon_batch_serve  ... and every other call then gets its own answer *)
+Definition batch_open (close_class : nat) (closed : bool) : bool :=
+  negb closed && negb (Nat.eqb close_class 3).
+Definition mon_batch_own (res : list nat) : bool := negb (existsb (Nat.eqb 6) res).
+Definition mon_batch_acct (close_class : nat) (unread : Z) (closed : bool) : bool :=
+  implb (batch_open close_class closed) (unread =? 0).
+Definition mon_batch_serve (close_class : nat) (closed : bool) (res : list nat) : bool :=
+  negb (Nat.eqb close_class 3) &&
+  implb (batch_open close_class closed) (forallb (fun c => Nat.eqb c 1 || Nat.eqb c 6) res).
